@@ -904,4 +904,217 @@ theorem C14_fix_request (n : Node) (k : Bool) (i : Nat) (x : Sw) (hx : n.sws[i]?
       Sw.fix, hc, decide_true, Bool.and_self]
     exact ⟨rfl, rfl, by simp [hr]⟩
 
+
+/-! ## 5. timing: folder scan and folder restore take exactly `max(1, duration)` timesteps of a live folder -/
+
+/-- The folder is ticked in this step: a timestep, node ON after its power phase, folder not deleted. -/
+def folderTicking (n : Node) (op : Op) (G : Folder) : Bool := op = .tick && n.powerPhase.power = .on && !G.deleted
+
+/-- number of timesteps of a trace that reach the `j`-th folder -/
+def effFolderTicks (n : Node) (j : Nat) : List Op → Nat
+  | [] => 0
+  | op :: ops =>
+    (match n.folders[j]? with
+     | some G => if folderTicking n op G then 1 else 0
+     | none => 0) + effFolderTicks (n.apply op) j ops
+
+theorem Folder.handle_cds (G : Folder) (r : ItemReq) :
+    (1 ≤ G.scanCd → (G.handle r).1.scanCd = G.scanCd) ∧ (1 ≤ G.restoreCd → (G.handle r).1.restoreCd = G.restoreCd) := by
+  cases r <;> simp only [Folder.handle, Folder.scan, Folder.repair, Folder.restore, Folder.corrupt] <;> constructor <;>
+    intro h <;> (repeat' split) <;> first | rfl | omega | trivial
+
+/-- while a folder scan runs (`scanCd ≥ 1`) nothing but a timestep that reaches the folder moves its countdown —
+in particular a second scan request is ignored, and deleting / restoring the folder or power loss only pause it -/
+theorem folderEff_scanCd_running (n : Node) (op : Op) (G : Folder) (h : 1 ≤ G.scanCd) :
+    (folderEff n op G).scanCd = if folderTicking n op G then G.scanCd - 1 else G.scanCd := by
+  cases op <;> simp only [folderEff, folderTicking, decide_true, decide_false, Bool.true_and, Bool.false_and,
+    Bool.false_eq_true, if_false, reduceCtorEq]
+  case tick =>
+    unfold folderTickEff Folder.tick
+    by_cases hon : n.powerPhase.power = .on
+    · by_cases hd : G.deleted = true
+      · by_cases hs : n.powerPhase.scanCd = 1 <;> simp [hon, hd, hs]
+      · have hd' : G.deleted = false := by simpa using hd
+        have h0 : G.scanCd ≥ 0 := by omega
+        by_cases hs : n.powerPhase.scanCd = 1
+        · simp only [hon, hs, if_true, Folder.instantScan_deleted, hd', Bool.false_eq_true, if_false, decide_true,
+            Bool.not_false, Bool.and_self]
+          rw [(Folder.restoreTick_rest _).2.2.1, Folder.scanTick_scanCd, Folder.instantScan_scanCd, if_pos h0]
+        · simp only [hon, hs, if_true, if_false, hd', Bool.false_eq_true, decide_true, Bool.not_false, Bool.and_self]
+          rw [(Folder.restoreTick_rest _).2.2.1, Folder.scanTick_scanCd, if_pos h0]
+    · simp [hon]
+  case folder F r =>
+    (repeat' split) <;> first | rfl | exact (G.handle_cds r).1 h
+  case fsRestoreFolder F =>
+    (repeat' split) <;> first | rfl | (unfold Folder.restore; split <;> rfl)
+  all_goals ((repeat' split) <;> rfl)
+
+theorem folderEff_restoreCd_running (n : Node) (op : Op) (G : Folder) (h : 1 ≤ G.restoreCd) :
+    (folderEff n op G).restoreCd = if folderTicking n op G then G.restoreCd - 1 else G.restoreCd := by
+  cases op <;> simp only [folderEff, folderTicking, decide_true, decide_false, Bool.true_and, Bool.false_and,
+    Bool.false_eq_true, if_false, reduceCtorEq]
+  case tick =>
+    unfold folderTickEff Folder.tick
+    by_cases hon : n.powerPhase.power = .on
+    · by_cases hd : G.deleted = true
+      · by_cases hs : n.powerPhase.scanCd = 1 <;> simp [hon, hd, hs]
+      · have hd' : G.deleted = false := by simpa using hd
+        have h0 : G.restoreCd ≥ 0 := by omega
+        by_cases hs : n.powerPhase.scanCd = 1
+        · simp only [hon, hs, if_true, Folder.instantScan_deleted, hd', Bool.false_eq_true, if_false, decide_true,
+            Bool.not_false, Bool.and_self]
+          rw [Folder.restoreTick_restoreCd, (Folder.scanTick_rest _).2.2.1, Folder.instantScan_restoreCd, if_pos h0]
+        · simp only [hon, hs, if_true, if_false, hd', Bool.false_eq_true, decide_true, Bool.not_false, Bool.and_self]
+          rw [Folder.restoreTick_restoreCd, (Folder.scanTick_rest _).2.2.1, if_pos h0]
+    · simp [hon]
+  case folder F r =>
+    (repeat' split) <;> first | rfl | exact (G.handle_cds r).2 h
+  case fsRestoreFolder F =>
+    (repeat' split) <;> first | rfl | (unfold Folder.restore; split <;> first | rfl | omega)
+  all_goals ((repeat' split) <;> rfl)
+
+/-- generic countdown argument shared by folder scan and folder restore -/
+theorem folder_cd_not_early (cd : Folder → Int)
+    (hstep : ∀ n op G, 1 ≤ cd G → cd (folderEff n op G) = if folderTicking n op G then cd G - 1 else cd G)
+    (ops : List Op) : ∀ (n : Node) (j : Nat) (G : Folder) (c : Int),
+    n.folders[j]? = some G → cd G = c → (effFolderTicks n j ops : Int) < c →
+    ∃ G', (n.run ops).folders[j]? = some G' ∧ G'.name = G.name ∧ cd G' = c - effFolderTicks n j ops := by
+  induction ops with
+  | nil => intro n j G c hG hc _; exact ⟨G, hG, rfl, by simpa [effFolderTicks] using hc⟩
+  | cons op ops ih =>
+    intro n j G c hG hc hk
+    have hG1 : (n.apply op).folders[j]? = some (folderEff n op G) := by
+      rw [apply_folders, List.getElem?_map, hG]; rfl
+    simp only [effFolderTicks, hG] at hk ⊢
+    simp only [Node.run]
+    have hc1 : 1 ≤ cd G := by
+      have : (0 : Int) ≤ (effFolderTicks (n.apply op) j ops : Int) := Int.natCast_nonneg _
+      split at hk <;> omega
+    have hs := hstep n op G hc1
+    by_cases ht : folderTicking n op G = true
+    · simp only [ht, if_true] at hk hs ⊢
+      obtain ⟨G', h1, h2, h3⟩ := ih (n.apply op) j (folderEff n op G) (c - 1) hG1 (by rw [hs, hc]) (by omega)
+      refine ⟨G', h1, h2.trans (folderEff_name n op G), ?_⟩
+      rw [h3]; omega
+    · have ht' : folderTicking n op G = false := by simpa using ht
+      simp only [ht', Bool.false_eq_true, if_false, Nat.zero_add] at hk hs ⊢
+      obtain ⟨G', h1, h2, h3⟩ := ih (n.apply op) j (folderEff n op G) c hG1 (by rw [hs, hc]) hk
+      exact ⟨G', h1, h2.trans (folderEff_name n op G), h3⟩
+
+/-- **C14 folder scan timing, part 1 (not early).** From any state in which the `j`-th folder has `c` on its scan
+countdown, for ANY operation sequence: while fewer than `c` timesteps have reached the folder, the countdown is `c`
+minus that number (so the scan has not completed; a second scan request in between is ignored). -/
+theorem C14_folder_scan_not_early (ops : List Op) (n : Node) (j : Nat) (G : Folder) (c : Int)
+    (hG : n.folders[j]? = some G) (hc : G.scanCd = c) (hk : (effFolderTicks n j ops : Int) < c) :
+    ∃ G', (n.run ops).folders[j]? = some G' ∧ G'.name = G.name ∧ G'.scanCd = c - effFolderTicks n j ops :=
+  folder_cd_not_early (·.scanCd) folderEff_scanCd_running ops n j G c hG hc hk
+
+/-- **C14 folder scan timing, part 2 (on time).** The `c`-th timestep that reaches the folder completes the scan:
+the folder's visible health becomes the worst health of its live files, and every live file's visible health becomes
+its actual health. With `C14_folder_scan_request` (`c = max(1, scan_duration)`): exactly `max(1, d)` timesteps. -/
+theorem C14_folder_scan_completes_on_time (ops : List Op) (n : Node) (j : Nat) (G : Folder) (c : Int)
+    (hG : n.folders[j]? = some G) (hc : G.scanCd = c) (hk : (effFolderTicks n j ops : Int) + 1 = c) :
+    ∃ G', (n.run ops).folders[j]? = some G' ∧ G'.scanCd = 1 ∧
+      (folderTicking (n.run ops) .tick G' = true →
+        ∃ G'', ((n.run ops).apply .tick).folders[j]? = some G'' ∧ G''.name = G.name ∧ G''.scanCd = 0 ∧
+          G''.visible = worstLive G'.files ∧
+          G''.files.map (·.visible) = G'.files.map (fun f => if f.deleted then f.visible else f.actual)) := by
+  obtain ⟨G', h1, h2, h3⟩ := C14_folder_scan_not_early ops n j G c hG hc (by omega)
+  have hcd : G'.scanCd = 1 := by rw [h3]; omega
+  refine ⟨G', h1, hcd, fun ht => ⟨folderEff (n.run ops) .tick G', ?_, (folderEff_name _ _ _).trans h2, ?_, ?_, ?_⟩⟩
+  · rw [apply_folders, List.getElem?_map, h1]; rfl
+  · rw [folderEff_scanCd_running _ _ _ (by omega), ht, hcd]; rfl
+  · simp only [folderTicking, decide_true, Bool.true_and, Bool.and_eq_true, decide_eq_true_eq, Bool.not_eq_true'] at ht
+    rw [folderEff_visible]
+    simp [folderScanCompletes, ht.1, ht.2, hcd]
+  · simp only [folderTicking, decide_true, Bool.true_and, Bool.and_eq_true, decide_eq_true_eq, Bool.not_eq_true'] at ht
+    rw [folderEff_files, List.map_map]
+    apply List.map_congr_left
+    intro f _
+    simp only [Function.comp_def, fileEff_visible, fileScanCompletes, ht.1, ht.2, hcd, decide_true, Bool.not_false,
+      Bool.true_and, Bool.or_true, Bool.and_true]
+    by_cases hd : f.deleted = true <;> simp [hd]
+
+/-- A `scan` request on a live folder of a powered-on node loads `max(scan_duration, 1)` — unless a scan is already
+running, in which case it changes nothing. -/
+theorem C14_folder_scan_request (n : Node) (F : String) (G : Folder) :
+    (folderEff n (.folder F .scan) G).scanCd =
+      if n.power = .on ∧ G.name = F ∧ G.deleted = false ∧ G.scanCd ≤ 0 then max G.scanDur 1 else G.scanCd := by
+  simp only [folderEff, Folder.handle, Folder.scan]
+  by_cases h1 : n.power = .on <;> by_cases h2 : G.name = F <;> by_cases h3 : G.deleted = false <;>
+    by_cases h4 : G.scanCd ≤ 0 <;> simp [h1, h2, h3, h4]
+
+/-- **C14 folder restore timing, part 1 (not early).** -/
+theorem C14_folder_restore_not_early (ops : List Op) (n : Node) (j : Nat) (G : Folder) (c : Int)
+    (hG : n.folders[j]? = some G) (hc : G.restoreCd = c) (hk : (effFolderTicks n j ops : Int) < c) :
+    ∃ G', (n.run ops).folders[j]? = some G' ∧ G'.name = G.name ∧ G'.restoreCd = c - effFolderTicks n j ops :=
+  folder_cd_not_early (·.restoreCd) folderEff_restoreCd_running ops n j G c hG hc hk
+
+/-- **C14 folder restore timing, part 2 (on time).** The `c`-th timestep that reaches the folder completes the
+restore: every file is live again, every file that was live and CORRUPT is GOOD (a deleted file comes back with the
+health it had), and the folder itself is no longer CORRUPT / RESTORING. -/
+theorem C14_folder_restore_completes_on_time (ops : List Op) (n : Node) (j : Nat) (G : Folder) (c : Int)
+    (hG : n.folders[j]? = some G) (hc : G.restoreCd = c) (hk : (effFolderTicks n j ops : Int) + 1 = c) :
+    ∃ G', (n.run ops).folders[j]? = some G' ∧ G'.restoreCd = 1 ∧
+      (folderTicking (n.run ops) .tick G' = true →
+        ∃ G'', ((n.run ops).apply .tick).folders[j]? = some G'' ∧ G''.name = G.name ∧ G''.restoreCd = 0 ∧
+          G''.actual ≠ .corrupt ∧ G''.actual ≠ .restoring ∧
+          G''.files.map (fun f => (f.deleted, f.actual)) =
+            G'.files.map (fun f => (false, if f.deleted = false ∧ f.actual = .corrupt then FsH.good else f.actual))) := by
+  obtain ⟨G', h1, h2, h3⟩ := C14_folder_restore_not_early ops n j G c hG hc (by omega)
+  have hcd : G'.restoreCd = 1 := by rw [h3]; omega
+  refine ⟨G', h1, hcd, fun ht => ⟨folderEff (n.run ops) .tick G', ?_, (folderEff_name _ _ _).trans h2, ?_, ?_⟩⟩
+  · rw [apply_folders, List.getElem?_map, h1]; rfl
+  · rw [folderEff_restoreCd_running _ _ _ (by omega), ht, hcd]; rfl
+  · simp only [folderTicking, decide_true, Bool.true_and, Bool.and_eq_true, decide_eq_true_eq, Bool.not_eq_true'] at ht
+    obtain ⟨hon, hd⟩ := ht
+    have hact : ∀ H : Folder, H.deleted = false → H.restoreCd = 1 →
+        H.tick.actual ≠ .corrupt ∧ H.tick.actual ≠ .restoring := by
+      intro H hHd hHc
+      unfold Folder.tick
+      rw [Folder.restoreTick_actual, (Folder.scanTick_rest H).2.1, (Folder.scanTick_rest H).2.2.1]
+      simp only [hHc, hHd, true_and]
+      split
+      · exact ⟨by simp, by simp⟩
+      · rename_i hn
+        exact ⟨fun h => hn (Or.inl h), fun h => hn (Or.inr h)⟩
+    refine ⟨?_, ?_, ?_⟩
+    · simp only [folderEff, folderTickEff, hon, if_true]
+      by_cases hs : (n.run ops).powerPhase.scanCd = 1
+      · simp only [hs, if_true, Folder.instantScan_deleted, hd, Bool.false_eq_true, if_false]
+        exact (hact _ (by simp [hd]) (by simp [hcd])).1
+      · simp only [hs, if_false, hd, Bool.false_eq_true]
+        exact (hact _ hd hcd).1
+    · simp only [folderEff, folderTickEff, hon, if_true]
+      by_cases hs : (n.run ops).powerPhase.scanCd = 1
+      · simp only [hs, if_true, Folder.instantScan_deleted, hd, Bool.false_eq_true, if_false]
+        exact (hact _ (by simp [hd]) (by simp [hcd])).2
+      · simp only [hs, if_false, hd, Bool.false_eq_true]
+        exact (hact _ hd hcd).2
+    · rw [folderEff_files, List.map_map]
+      apply List.map_congr_left
+      intro f _
+      simp only [Function.comp_def, fileEff, hon, hd, and_self, if_true, hcd]
+      have hr : ∀ g : File, g.restore.deleted = false ∧
+          g.restore.actual = if g.deleted = false ∧ g.actual = .corrupt then FsH.good else g.actual := by
+        intro g
+        refine ⟨g.restore_deleted, ?_⟩
+        unfold File.restore
+        by_cases hgd : g.deleted = true
+        · simp [hgd]
+        · by_cases hgc : g.actual = .corrupt <;> simp [hgd, hgc]
+      by_cases h2 : G'.scanCd = 1 <;> by_cases h3 : (n.run ops).powerPhase.scanCd = 1 <;>
+        simp [h2, h3, hr]
+
+/-- A `restore` request (folder route or file-system route) loads `max(restore_duration, 1)` and marks the folder
+RESTORING — unless a restore is already running, in which case the countdown is left alone. -/
+theorem C14_folder_restore_request (n : Node) (F : String) (G : Folder) (hon : n.power = .on) (hn : G.name = F) :
+    (folderEff n (.fsRestoreFolder F) G).restoreCd = (if G.restoreCd ≤ 0 then max G.restoreDur 1 else G.restoreCd) ∧
+    (G.deleted = false →
+      (folderEff n (.folder F .restore) G).restoreCd = (if G.restoreCd ≤ 0 then max G.restoreDur 1 else G.restoreCd)) := by
+  simp only [folderEff, Folder.handle, Folder.restore, hon, hn, if_true, true_and]
+  constructor
+  · split <;> rfl
+  · intro hd; simp only [hd, if_true]; split <;> rfl
+
 end Primaite.Health
